@@ -570,3 +570,94 @@ def run(ctx):  # noqa: F811
     _run_c31c(ctx)
     r31_5(ctx, ctx.model)
     r31_6(ctx, ctx.model)
+
+
+# ---------------------------------------------------------------------------------------------------------------- R31.7 - R31.9
+GIMPL = "nifty.re.multi_grid.grid_impl"
+GMOD = "nifty.re.multi_grid.grid"
+
+
+def r31_7(ctx, m):
+    R = "R31.7"
+    ctx.rule(R, "parent() and children() of one level agree on the refinement factor: every parent override in the grid classes divides "
+                "by the level's own `parent_splits` (or delegates to the base class); a literal factor (>> 2, // 4) is right only for "
+                "one admissible split and breaks parent(children(i)) = i for the others", floor=1)
+    n = 0
+    for mn in (GIMPL, GMOD):
+        mod = m.module(mn)
+        for c in mod.classes.values():
+            fi = c.methods.get("parent")
+            if fi is None:
+                continue
+            n += 1
+            ctx.saw_func(fi)
+            rets = [r for r in walk_no_nested(fi.node) if isinstance(r, ast.Return) and r.value is not None]
+            lit = []
+            for r in rets:
+                for z in ast.walk(r.value):
+                    if isinstance(z, ast.BinOp) and isinstance(z.op, (ast.RShift, ast.FloorDiv, ast.Div)) and isinstance(z.right, ast.Constant) \
+                            and isinstance(z.right.value, (int, float)) and z.right.value not in (1,):
+                        lit.append(src(z))
+            uses = any("parent_splits" in src(z) or "super()" in src(z) or "grid_at_level" in src(z) or "gridAtLevel" in src(z) for z in ast.walk(fi.node) if isinstance(z, (ast.Attribute, ast.Call)))
+            uses = uses or any(isinstance(z, ast.Call) and isinstance(z.func, ast.Attribute) and z.func.attr == "parent" for z in ast.walk(fi.node)) \
+                or "parent_mapping" in src(fi.node)
+            ctx.check(R, f"{fi.key}::refinement factor is the level's parent_splits", False if lit else (True if uses else None),
+                      f"literal factor in `{lit[0]}`" if lit else "", fi)
+    if not n:
+        ctx.und(R, "grid classes::parent", "no parent method found", GIMPL)
+
+
+def r31_8(ctx, m):
+    R = "R31.8"
+    ctx.rule(R, "FlatGrid.at: the per-level shapes and splits handed to the flat index arithmetic are READ from the wrapped grid's levels "
+                "(`self.grid.at(lvl).shape` / `.splits`), never re-derived by multiplying shapes with splits - open grids shrink by "
+                "their padding before they are refined, so a running product gives the wrong strides", floor=1)
+    C = m.cls(GMOD, "FlatGrid")
+    fi = C.methods.get("at")
+    if fi is None:
+        ctx.und(R, f"{C.key}::at", "missing", C)
+        return
+    ctx.saw_func(fi)
+    env = {st.targets[0].id: st.value for st in ast.walk(fi.node) if isinstance(st, ast.Assign) and len(st.targets) == 1 and isinstance(st.targets[0], ast.Name)}
+    apps = [z for z in ast.walk(fi.node) if isinstance(z, ast.Call) and isinstance(z.func, ast.Attribute) and z.func.attr == "append"
+            and isinstance(z.func.value, ast.Name) and z.func.value.id in ("shapes", "splits") and z.args
+            and not (isinstance(z.args[0], ast.Constant) and z.args[0].value is None)]
+    if not apps:
+        ctx.und(R, f"{fi.key}::per-level shapes", "no appends found", fi)
+        return
+    for a in apps:
+        v = a.args[0]
+        good = isinstance(v, ast.Attribute) and v.attr in ("shape", "splits") and (
+            (isinstance(v.value, ast.Name) and v.value.id in env and "grid.at(" in src(env[v.value.id])) or "grid.at(" in src(v.value))
+        ctx.check(R, f"{fi.key}::`{src(a)}` reads the wrapped level", True if good else False,
+                  "" if good else f"`{src(v)}` is not an attribute of self.grid.at(level)", fi, a)
+
+
+def r31_9(ctx, m):
+    R = "R31.9"
+    ctx.rule(R, "logarithmic grid: the volume of a pixel is the exact difference of the coordinates of its two edges (index +/- 1/2), "
+                "so the children of a pixel add up to their parent; the Jacobian form r(i) * dlog r is larger on coarse levels "
+                "(convexity of exp): refinement would create volume", floor=1)
+    C = m.cls(GIMPL, "LogGridAtLevel", required=False)
+    fi = C.methods.get("index2volume") if C is not None else None
+    if fi is None:
+        ctx.und(R, "LogGridAtLevel.index2volume", "missing", GIMPL)
+        return
+    ctx.saw_func(fi)
+    t = src(fi.node)
+    halves = "-0.5" in t.replace(" ", "") and "0.5" in t
+    subs = any(isinstance(z, ast.BinOp) and isinstance(z.op, ast.Sub) and isinstance(z.left, ast.Subscript) and isinstance(z.right, ast.Subscript) for z in ast.walk(fi.node))
+    jac = any(isinstance(z, ast.BinOp) and isinstance(z.op, ast.Mult) and any(isinstance(q, ast.Call) and call_name(q) == "index2coord" and q.args and isinstance(q.args[0], ast.Name)
+              for q in (z.left, z.right)) for z in ast.walk(fi.node))
+    ctx.check(R, f"{fi.key}::edge difference", True if (halves and subs and not jac) else (False if jac else None),
+              "pixel volume as r(i) times a step (Jacobian approximation)" if jac else "", fi)
+
+
+_run_c31x = run
+
+
+def run(ctx):  # noqa: F811
+    _run_c31x(ctx)
+    r31_7(ctx, ctx.model)
+    r31_8(ctx, ctx.model)
+    r31_9(ctx, ctx.model)
